@@ -1,4 +1,5 @@
 // C15 implementation driver: prolate hyperspheroid geometry and informed samplers of /repo.
+//   PHSINV n c | f1... | f2... | p...   the affine map recovered from n+1 transform calls, inverted at the world point p: |u|^2, residual, orthogonality of the columns
 //   PHS n c | f1... | f2... | u...      transform of the (unit) vector u: prints pathlen(x) c cmin measure(c) inphs(x/2-ish) x...
 //   REJ numit max min | a a a ...       RejectionInfSampler on R^2 [-100,100]^2, start (0,0), goal (10,0), scripted base sampler
 //                                       returning (a,0); min < 0 means the single-bound call;  prints "found a"
@@ -50,6 +51,39 @@ int main()
                 std::printf("phs %s %s %s %s", hexd(phs.getPathLength(x.data())).c_str(), hexd(phs.getMinTransverseDiameter()).c_str(), hexd(phs.getPhsMeasure()).c_str(), hexd(phs.getPhsMeasure(c)).c_str());
                 std::printf(" | %d %d |", phs.isInPhs(x.data()) ? 1 : 0, phs.isOnPhs(x.data()) ? 1 : 0); for (double v : x) std::printf(" %s", hexd(v).c_str());
                 std::printf(" | unitball %s\n", hexd(ompl::unitNBallMeasure(n)).c_str());
+            }
+            else if (op == "PHSINV")
+            {
+                // the library's transform is affine: recover x = M u + t from n + 1 calls, solve M u = p - t for a given world point p
+                unsigned n; std::string cs, bar; in >> n >> cs >> bar; double c = std::strtod(cs.c_str(), nullptr); std::vector<double> f1(n), f2(n), p(n), t(n), e(n), x(n);
+                auto rd = [&in]() { std::string tk; in >> tk; return std::strtod(tk.c_str(), nullptr); };
+                for (auto &v : f1) v = rd(); in >> bar; for (auto &v : f2) v = rd(); in >> bar; for (auto &v : p) v = rd();
+                ompl::ProlateHyperspheroid phs(n, f1.data(), f2.data()); phs.setTransverseDiameter(c);
+                std::fill(e.begin(), e.end(), 0.0); phs.transform(e.data(), t.data());
+                std::vector<std::vector<double>> M(n, std::vector<double>(n));
+                for (unsigned j = 0; j < n; ++j) { std::fill(e.begin(), e.end(), 0.0); e[j] = 1.0; phs.transform(e.data(), x.data()); for (unsigned i = 0; i < n; ++i) M[i][j] = x[i] - t[i]; }
+                // deviation of M^T M from diag(r1^2, r2^2, ..., r2^2): the columns are orthogonal with the semi-axes as lengths  <=>  rotation * diag
+                double cmin = phs.getMinTransverseDiameter(), r1 = c / 2, r2 = std::sqrt(c * c - cmin * cmin) / 2, dev = 0;
+                for (unsigned a = 0; a < n; ++a) for (unsigned b = 0; b < n; ++b)
+                {
+                    double s = 0; for (unsigned i = 0; i < n; ++i) s += M[i][a] * M[i][b];
+                    double want = a != b ? 0.0 : (a == 0 ? r1 * r1 : r2 * r2); dev = std::max(dev, std::fabs(s - want) / (r1 * r1));
+                }
+                // Gaussian elimination with partial pivoting
+                std::vector<std::vector<double>> A = M; std::vector<double> rhs(n), u(n); for (unsigned i = 0; i < n; ++i) rhs[i] = p[i] - t[i];
+                bool sing = false;
+                for (unsigned k = 0; k < n && !sing; ++k)
+                {
+                    unsigned piv = k; for (unsigned i = k + 1; i < n; ++i) if (std::fabs(A[i][k]) > std::fabs(A[piv][k])) piv = i;
+                    if (A[piv][k] == 0.0) { sing = true; break; }
+                    std::swap(A[piv], A[k]); std::swap(rhs[piv], rhs[k]);
+                    for (unsigned i = k + 1; i < n; ++i) { double m = A[i][k] / A[k][k]; for (unsigned j = k; j < n; ++j) A[i][j] -= m * A[k][j]; rhs[i] -= m * rhs[k]; }
+                }
+                if (sing) { std::printf("phsinv singular\n"); continue; }
+                for (int i = (int)n - 1; i >= 0; --i) { double s = rhs[i]; for (unsigned j = i + 1; j < n; ++j) s -= A[i][j] * u[j]; u[i] = s / A[i][i]; }
+                double nu = 0; for (double v : u) nu += v * v;
+                phs.transform(u.data(), x.data()); double res = 0; for (unsigned i = 0; i < n; ++i) res = std::max(res, std::fabs(x[i] - p[i]));
+                std::printf("phsinv len %s norm2 %s res %s dev %s cmin %s inphs %d\n", hexd(phs.getPathLength(p.data())).c_str(), hexd(nu).c_str(), hexd(res).c_str(), hexd(dev).c_str(), hexd(cmin).c_str(), phs.isInPhs(p.data()) ? 1 : 0);
             }
             else if (op == "REJ")
             {
